@@ -600,6 +600,19 @@ func aggregate(results []*shardResult, wall time.Duration) int {
 		}
 	}
 
+	// inconclusive: verdicts that individual cases could not reach (counted by the workers)
+	{
+		var ks []string
+		for k := range counters {
+			if strings.HasPrefix(k, "inconclusive:") {
+				ks = append(ks, k)
+			}
+		}
+		sort.Strings(ks)
+		for _, k := range ks {
+			incon = append(incon, fmt.Sprintf("%d case(s): %s", counters[k], strings.TrimPrefix(k, "inconclusive:")))
+		}
+	}
 	// inconclusive: claimed classes with zero observations
 	for _, k := range meta.RequiredCtrs {
 		if counters[k] == 0 {
